@@ -191,3 +191,29 @@ package index
 //@   ensures forall k int :: 0 <= k && k < len(result1) ==> result1[k] != nil
 //@   ensures forall k int :: 0 <= k && k < len(result0) ==> result0[k].End - result0[k].Start == len(result1[k].Sym)
 //@   ensures forall k, x int :: 0 <= k && k < len(result0) && result0[k].Start <= x && x < result0[k].End ==> content[x] == result1[k].Sym[x - result0[k].Start]
+
+// ---------------------------------------------------------------------------
+// C11 / C09: varint/delta decoders on arbitrary bytes (load path): no
+// precondition at all - every slice operation must be in bounds, every
+// allocation bounded, every loop must terminate, whatever the bytes are.
+// ---------------------------------------------------------------------------
+
+//@ func index.fromSizedDeltas
+//@   loop 1:
+//@     decreases len(data)
+//@   ensures true
+
+//@ func index.fromSizedDeltas16
+//@   loop 1:
+//@     decreases len(data)
+//@   ensures true
+
+//@ func index.fromDeltas
+//@   loop 1:
+//@     decreases len(data)
+//@   ensures true
+
+//@ func index.unmarshalDocSections
+//@   loop 1:
+//@     decreases len(data)
+//@   ensures true
